@@ -91,6 +91,15 @@ Theorem C16_no_mutation :
   gen_extend_and_trim_population_mutates_param = false /\ gen_replace_and_trim_population_mutates_param = false.
 Proof. exact helpers_do_not_mutate_caller_lists. Qed.
 
+(* best_agent_index / worst_agent_index (REGENERATED): the designated index carries the cost of the best / worst agent, whatever tie-breaking the argsort chose;
+   on an empty population both fail (IndexError) *)
+Theorem C16_best_index : forall A cost l d pi, costs_ok A cost l -> is_argsort (map cost l) pi ->
+  option_map (nth_key (map cost l)) (gen_best_agent_index A l d pi) = option_map cost (hd_error (gen_best_agents A cost l 1 d)).
+Proof. exact best_index_correct. Qed.
+Theorem C16_worst_index : forall A cost l d pi, costs_ok A cost l -> is_argsort (map cost l) pi ->
+  option_map (nth_key (map cost l)) (gen_worst_agent_index A l d pi) = option_map cost (hd_error (gen_worst_agents A cost l 1 d)).
+Proof. exact worst_index_correct. Qed.
+
 Print Assumptions C16_sort_by_cost.
 Print Assumptions C16_best_agents.
 Print Assumptions C16_worst_agents.
@@ -98,6 +107,8 @@ Print Assumptions C16_best_agent.
 Print Assumptions C16_worst_agent.
 Print Assumptions C16_special_agents.
 Print Assumptions C16_best_indexes.
+Print Assumptions C16_best_index.
+Print Assumptions C16_worst_index.
 Print Assumptions C16_worst_indexes.
 Print Assumptions C16_sort_and_trim.
 Print Assumptions C16_greedy_agent.
